@@ -2,29 +2,30 @@ import Model.Prepare
 /-!
 # C14 — the cache key as a function of (host id, keyspace, statement text): helper lemmas
 
-`keyFor` (prepared_cache.go) is plain concatenation. It is injective exactly on triples whose host-id and
-keyspace LENGTHS agree; any other pair of triples with the same concatenation collides. `keyForFixed`
-(length-prefixed, the proposed fix) is injective without any hypothesis.
+`keyFor` (prepared_cache.go, after the repair of KF-C14-1) prefixes the plain concatenation with the decimal
+lengths of host id and keyspace, each followed by '/': injective without any hypothesis (`keyFor_inj`).
+`keyForOld` (the plain concatenation the code used before) is injective exactly on triples whose host-id and
+keyspace LENGTHS agree — that lemma is what the length prefix reduces to.
 -/
 namespace C14Key
 open Prepare
 
-theorem keyFor_inj_of_len {α : Type} (h₁ k₁ s₁ h₂ k₂ s₂ : List α)
+theorem keyForOld_inj_of_len {α : Type} (h₁ k₁ s₁ h₂ k₂ s₂ : List α)
     (hh : h₁.length = h₂.length) (hk : k₁.length = k₂.length)
-    (he : keyFor h₁ k₁ s₁ = keyFor h₂ k₂ s₂) : h₁ = h₂ ∧ k₁ = k₂ ∧ s₁ = s₂ := by
-  unfold keyFor at he
+    (he : keyForOld h₁ k₁ s₁ = keyForOld h₂ k₂ s₂) : h₁ = h₂ ∧ k₁ = k₂ ∧ s₁ = s₂ := by
+  unfold keyForOld at he
   rw [List.append_assoc, List.append_assoc] at he
   obtain ⟨a, b⟩ := List.append_inj he hh
   obtain ⟨c, d⟩ := List.append_inj b hk
   exact ⟨a, c, d⟩
 
-/-- moving the keyspace/statement border: the same key -/
-theorem keyFor_move_ks {α : Type} (h k s : List α) : keyFor h k s = keyFor h [] (k ++ s) := by
-  simp [keyFor]
+/-- the OLD key: moving the keyspace/statement border gives the same key -/
+theorem keyForOld_move_ks {α : Type} (h k s : List α) : keyForOld h k s = keyForOld h [] (k ++ s) := by
+  simp [keyForOld]
 
-/-- moving the host/keyspace border: the same key -/
-theorem keyFor_move_host {α : Type} (h k s : List α) : keyFor h k s = keyFor (h ++ k) [] s := by
-  simp [keyFor]
+/-- the OLD key: moving the host/keyspace border gives the same key -/
+theorem keyForOld_move_host {α : Type} (h k s : List α) : keyForOld h k s = keyForOld (h ++ k) [] s := by
+  simp [keyForOld]
 
 /-- the first occurrence of a separator splits uniquely -/
 theorem split_at_sep {α : Type} (sep : α) :
@@ -81,12 +82,16 @@ theorem slash_not_in_dec (n : Nat) : (0x2f : UInt8) ∉ dec n := by
   obtain ⟨c, hc, he⟩ := List.mem_map.1 h
   exact (digit_roundtrip c (Nat.isDigit_of_mem_toDigits (by decide) (by decide) hc)).2 he
 
-theorem keyForFixed_inj (h₁ k₁ s₁ h₂ k₂ s₂ : List UInt8)
-    (he : keyForFixed h₁ k₁ s₁ = keyForFixed h₂ k₂ s₂) : h₁ = h₂ ∧ k₁ = k₂ ∧ s₁ = s₂ := by
-  unfold keyForFixed at he
+theorem keyFor_inj (h₁ k₁ s₁ h₂ k₂ s₂ : List UInt8)
+    (he : keyFor h₁ k₁ s₁ = keyFor h₂ k₂ s₂) : h₁ = h₂ ∧ k₁ = k₂ ∧ s₁ = s₂ := by
+  unfold keyFor at he
   simp only [List.append_assoc, List.singleton_append] at he
   obtain ⟨a, b⟩ := split_at_sep _ _ _ _ _ (slash_not_in_dec _) (slash_not_in_dec _) he
   obtain ⟨c, d⟩ := split_at_sep _ _ _ _ _ (slash_not_in_dec _) (slash_not_in_dec _) b
-  exact keyFor_inj_of_len _ _ _ _ _ _ (dec_inj a) (dec_inj c) (by simpa [keyFor] using d)
+  exact keyForOld_inj_of_len _ _ _ _ _ _ (dec_inj a) (dec_inj c) (by simpa [keyForOld] using d)
+
+/-- the key is the two length prefixes followed by the old key -/
+theorem keyFor_eq_prefix_old (h k s : List UInt8) :
+    keyFor h k s = dec h.length ++ [0x2f] ++ (dec k.length ++ [0x2f] ++ keyForOld h k s) := rfl
 
 end C14Key
